@@ -439,7 +439,7 @@ class C06(PropertyCheck):
                     "(everything else is structured random generation)",
     }
     # loop ties (DESIGN §12): regenerated from the source on every run, tie theorems proved for all sizes
-    loop_tie_modules = ["LoopsMapper", "LoopsDelaunay"]
+    loop_tie_modules = ["LoopsMapper", "LoopsDelaunay", "LoopsMapper2"]
     modelled_functions = [
         "autoarray/inversion/pixelization/mappers/mapper_util.py:mapping_matrix_from",
         "autoarray/inversion/pixelization/mappers/mapper_util.py:data_slim_to_pixelization_unique_from",
